@@ -442,7 +442,7 @@ def _getitem_post(self, key, result, OLD):
                  % (o["meta"], _meta_of(result)), case)
         if _units_of(result) != o["units"]:
             fire("C17", "units-lost", "getitem: units/columns changed", case)
-        sel = np.arange(o["n"])[key]
+        sel = np.arange(o["n"])[np.asarray(key) if isinstance(key, list) else key]
         for k, (v0, un) in o["cols"].items():
             v1 = np.atleast_1d(np.asarray(getattr(result.tbl[k], "value", result.tbl[k]), dtype=float))
             if not _nan_eq(np.atleast_1d(v0[sel]), v1):
